@@ -32,6 +32,8 @@ COMMENT_WORDS = ['an exogenous shock', 'Exogenous', 'EXOGENOUS!', 'a=b', 'x = 5'
                  'x(k-1)', 'LAG(t-1)', '100%', 'MaxTime = 7', 'Err_Tolerance=1', "it's", 'rate 0.025', 't = k',
                  'pre-exogenous era', 'note', '[1] Household', 'Demand for goods (GOOD)']
 SAFE_COMMENTS = [c for c in COMMENT_WORDS if 'exogenous' not in c.lower()]
+PRE_TEXTS = ['t = k + 2000.\ny = 2.0*t\nMaxTime = 9', 'x = 1.0\n# Exogenous\nG = [1., 2.]\nMaxTime = 7\nErr_Tolerance = 0.5',
+             'a = b\nb(0) = 3.\nzz = a(k-1)\nt = 3*k', 'q9 = 1\nexogenous\nt = [5., 6.]']
 COMMENT_JOINS = [' # ', ' ', '#', '; ', ' ## ']
 
 
@@ -77,6 +79,7 @@ def case(draw):
     spec['bad_param'] = draw(st.sampled_from([None] * 12 + ['MaxTime = ten', 'MaxTime = 3.5', 'Err_Tolerance = tight',
                                                             'MaxTime = ', 'Err_Tolerance = 1e-6x']))
     spec['comment_sp'] = draw(st.sampled_from(['  # ', '#', ' #', '\t# ']))
+    spec['pre_text'] = draw(st.sampled_from([None, None, None] + PRE_TEXTS))
     spec['blank_lines'] = draw(st.booleans())
     spec['indent'] = draw(st.sampled_from(['', '   ', '\t']))
     return spec
@@ -168,6 +171,13 @@ def run(spec):
             raise Violation('C14/bad-run-parameter-silent', 'line %r was accepted without any report (message %r)' %
                             (spec['bad_param'], msg))
         return {'nontrivial': True, 'labels': ['bad-run-parameter:message']}
+    if spec.get('pre_text') is not None:
+        # the parser object has read another block before (with its own time axis, lags, exogenous section, run
+        # parameters): a block is classified the same way whatever was parsed earlier
+        try:
+            p.ParseString(spec['pre_text'])
+        except Exception:
+            pass
     try:
         msg = p.ParseString(text)
     except Exception as ex:
